@@ -107,9 +107,9 @@ Definition wf_unseated (l : list bcs) : bool :=
       && wf_unseated_go (bs_met c) (bs_snap c) l'
   end.
 
-(* ---- lists with two changes on ONE position (outside the theorems' domain wf_unseated, which is strict): judged per run
-   by a weaker oracle - measure lines, measures never decreasing, every original time still a tempo point, at most one
-   extra point per interval - and by structural equality with the model. *)
+(* ---- lists with two or more changes on ONE position (ties): domain wf_ties (non-strict positions).  reseat_specb_ties is the
+   weak oracle - measure lines, measures never decreasing, every original time still a tempo point, at most one extra point
+   per interval; the strong oracle reseat_tiesb (below) adds the timeline refinement.  Theorems: Proofs/ReseatTiesProofs.v. *)
 Fixpoint measures_nondecreasing (prev : Z) (l : list bcs) : bool :=
   match l with
   | [] => true
@@ -140,3 +140,48 @@ Definition wf_ties (l : list bcs) : bool :=
       && Qeq_bool (s_met (bs_snap c)) (bs_met c)
       && wf_ties_go (bs_met c) (bs_snap c) l'
   end.
+
+(* ---- ties, strong oracle (decides the structural relation `refines` of ReseatDomain.v; sound AND complete for it,
+   Proofs/ReseatTiesProofs.v).  A timeline is the list of (time, change) pairs in list order; two tied changes are two
+   entries with the same time, and the LATER entry is the one in force from that time on (Integrate.active_by_time). *)
+Definition wholeb (c n : bcs) : bool :=
+  let g := seg_beats (bs_met c) (bs_snap c) (bs_snap n) / bs_met c in Qeq_bool g (inject_Z (Qfloor g)).
+
+(* walk both timelines: every original entry is matched in order by an entry at the same time (bpm kept after a whole gap -
+   a zero-length gap between tied changes is whole), and between two matched entries there is either nothing, or - only when
+   the gap is not whole - one extra entry strictly inside, the bpm then being kept up to it *)
+Fixpoint refinesb (ts us : list (Q * bcs)) : bool :=
+  match ts with
+  | [] => false
+  | (t, c) :: ts' =>
+      match ts' with
+      | [] => match us with
+              | [(u, d)] => Qeq_bool t u && Qeq_bool (bs_bpm d) (bs_bpm c)
+              | _ => false
+              end
+      | (t', c') :: _ =>
+          match us with
+          | (u, d) :: (((x, e) :: us'') as us') =>
+              Qeq_bool t u &&
+              (if Qeq_bool x t'
+               then (negb (wholeb c c') || Qeq_bool (bs_bpm d) (bs_bpm c)) && refinesb ts' us'
+               else negb (wholeb c c') && Qeq_bool (bs_bpm d) (bs_bpm c) && Qlt_bool t x && Qlt_bool x t'
+                    && refinesb ts' us'')
+          | _ => false
+          end
+      end
+  end.
+
+Definition all_pos (r : list bcs) : bool := forallb (fun c => Qlt_bool 0 (bs_bpm c) && Qlt_bool 0 (bs_met c)) r.
+
+(* the change in force at time x: the last entry (in list order) whose time is <= x *)
+Definition active_at (tl : list (Q * bcs)) (x : Q) : option (Q * bcs) :=
+  match tl with
+  | [] => None
+  | p :: rest => if Qle_bool (fst p) x then Some (active_by_time p rest x) else None
+  end.
+
+(* the oracle for lists with ties (it is also what the strict lists satisfy): measure lines with non-decreasing measures,
+   every original time kept, at most one extra point per interval, positive bpm/metronome, timeline refinement *)
+Definition reseat_tiesb (l r : list bcs) : bool :=
+  reseat_specb_ties l r && all_pos r && refinesb (combine (times l) l) (combine (times r) r).
